@@ -22,6 +22,12 @@ func VerifC05_VerifiesAfterRoundTrip() {
 	withEP := verif_Bool("withExtendedProviders")
 	if withEP {
 		ad = c05extAd(k, []c05key{x}, verif_Choose("mainPosition", 0, 1))
+		// absent values may be nil or empty in memory; a decoded copy has them empty
+		for i := range ad.ExtendedProvider.Providers {
+			if p := &ad.ExtendedProvider.Providers[i]; len(p.Metadata) == 0 && verif_Bool("emptyMetadataIsNil") {
+				p.Metadata = nil
+			}
+		}
 		err := ad.SignWithExtendedProviders(k.priv, func(id string) (crypto.PrivKey, error) { return x.priv, nil })
 		verif_Assert(err == nil, "signing with extended providers succeeds")
 	} else {
